@@ -378,8 +378,12 @@ impl<W, R, T> CompilationScope<'_, W, R, T> {
                             })
                             .transpose()?
                             .unwrap_or_default();
+                        let Some(return_part) = sig_inners.next() else {
+                            // no arrow: a tuple type
+                            return Ok(Arc::new(XType::Tuple(param_types)));
+                        };
                         let return_type = self.get_complete_type(
-                            sig_inners.next().unwrap(),
+                            return_part,
                             generic_param_names,
                             interner,
                             tail_name,
@@ -389,27 +393,6 @@ impl<W, R, T> CompilationScope<'_, W, R, T> {
                             param_types,
                             return_type,
                         })))
-                    }
-                    Rule::tup_type => {
-                        let mut tup_inners = part1.into_inner();
-                        match tup_inners.next() {
-                            None => Ok(Arc::new(XType::Tuple(vec![]))),
-                            Some(inner) => {
-                                let tup_types = inner
-                                    .into_inner()
-                                    .map(|i| {
-                                        self.get_complete_type(
-                                            i,
-                                            generic_param_names,
-                                            interner,
-                                            tail_name,
-                                            false,
-                                        )
-                                    })
-                                    .collect::<Result<Vec<_>, _>>()?;
-                                Ok(Arc::new(XType::Tuple(tup_types)))
-                            }
-                        }
                     }
                     Rule::auto_type => {
                         if auto_allowed {
